@@ -449,3 +449,8 @@ func init() {
 	mutant("client-chunks-share-a-buffer", "chunk-storage-per-stream", "conn.go", "	buf := pb.buf[:defaultDataFrameSize]", "	buf := c.serverS.rawSettings[:defaultDataFrameSize]")
 	mutant("client-refill-skipped-when-window-shut", "client-request-shape", "conn.go", "			c.sendLck.Unlock()\n\n			if err := c.refillPending(pb); err != nil {", "			blocked := pb.window <= 0 || c.connWindow <= 0\n\n			c.sendLck.Unlock()\n\n			if blocked {\n				return nil\n			}\n\n			if err := c.refillPending(pb); err != nil {")
 }
+
+func init() {
+	mutant("flush-stops-at-first-blocked", "completion-closes-stream", "serverConn.go", "		if s.responded && !s.handlerRunning && s.hasMoreToSend() && sc.sendData(s) {\n			done = append(done, s)\n		}", "		if s.responded && !s.handlerRunning && s.hasMoreToSend() {\n			if !sc.sendData(s) {\n				break\n			}\n			done = append(done, s)\n		}")
+	mutant("flush-closes-inside-walk", "completion-closes-stream", "serverConn.go", "		if s.responded && !s.handlerRunning && s.hasMoreToSend() && sc.sendData(s) {\n			done = append(done, s)\n		}", "		if s.responded && !s.handlerRunning && s.hasMoreToSend() && sc.sendData(s) {\n			done = append(done, s)\n			closeStream(s)\n		}")
+}
